@@ -564,7 +564,13 @@ pub fn run(tier: &str) -> i32 {
         .par_iter()
         .map(|(r, t)| {
             if Instant::now() < deadline {
-                judge_full_mode(r, *t, EXACT, &fulls)
+                // a request that the layout computation itself turns down (other than default options) goes through
+                // the rejected-request check: the invalid-input error and no write
+                if !r.is_default() && matches!(hook(r, *t), Ok(Err(ErrKind::InvalidInput))) {
+                    judge_rejected(r, *t)
+                } else {
+                    judge_full_mode(r, *t, EXACT, &fulls)
+                }
             } else {
                 capped.fetch_add(1, Ordering::Relaxed);
                 None
